@@ -96,7 +96,11 @@ pub fn judge(c: &Case, st: &mut Stats) -> Verdict {
         }
     }
     let run = crate::engine::guard(|| {
-        let mut w = Writer::from(prefill.clone());
+        // the writer's buffer has 0 .. 4096 bytes of spare capacity (a Vec that was reserved, resized or reused), by seed
+        let spare = [0usize, 0, 1, 13, 64, 100, 4096][(c.prefill_seed as usize / 2) % 7];
+        let mut buf = Vec::with_capacity(prefill.len() + spare);
+        buf.extend_from_slice(&prefill);
+        let mut w = Writer::from(buf);
         let r = bld::write_val(&c.val, &data, &mut w);
         (r.map_err(|e| format!("{:?}", e.kind())), w.finish())
     });
@@ -137,6 +141,15 @@ pub fn judge(c: &Case, st: &mut Stats) -> Verdict {
                         "append",
                         format!("Ok({}) and contents = prefill ++ encoding {}", e.len(), crate::engine::hex(&e[..e.len().min(24)])),
                         format!("{:?}, writer holds {} bytes, appended {}", r, out.len(), crate::engine::hex(&out[prefill.len().min(out.len())..][..out.len().saturating_sub(prefill.len()).min(24)])),
+                    );
+                }
+            } else if matches!(c.val, Val::Bytes { .. }) && prefill.len() < LIMIT {
+                // a byte slice is one piece: a writer that is still below its limit takes all of it, even across the limit
+                if r != Ok(e.len()) || out != want {
+                    return fail(
+                        "append-across-limit",
+                        format!("Ok({}) and contents = prefill ++ the bytes (the writer held {} bytes, below its limit)", e.len(), prefill.len()),
+                        format!("{:?}, writer holds {} bytes", r, out.len()),
                     );
                 }
             } else if let Ok(n) = r {
